@@ -51,20 +51,20 @@ def register(reg, repo):
         g2 = z3.And(heap.sel("$alloc", t2), eng.isinstance_f(t2, [eng.ct.cls("AsyncTask")]))
         return [
             # dependencies are futures
-            z3.ForAll([t, j], z3.Implies(z3.And(g, 0 <= j, j < heap.sel("$llen", dl)),
+            smt.forall([t, j], z3.Implies(z3.And(g, 0 <= j, j < heap.sel("$llen", dl)),
                                          z3.And(heap.sel("$alloc", el), eng.isinstance_f(el, [eng.ct.cls("FutureBase")]))),
                       patterns=[z3.Select(heap.sel("$litem", heap.sel("_dependencies", t)), j)]),
             # an announced task is finished: generator closed, nothing pending
-            z3.ForAll([t], z3.Implies(z3.And(g, heap.sel("$n_notified", t) >= 1),
+            smt.forall([t], z3.Implies(z3.And(g, heap.sel("$n_notified", t) >= 1),
                                       z3.And(heap.sel("_generator", t) == NONE, heap.sel("$llen", dl) == 0,
                                              heap.sel("_last_value", t) == NONE)),
                       patterns=[heap.sel("_generator", t)]),
             # ownership of the dependency list
-            z3.ForAll([t, s], z3.Implies(z3.And(g, gs), dl != heap.sel("_tasks", s)),
+            smt.forall([t, s], z3.Implies(z3.And(g, gs), dl != heap.sel("_tasks", s)),
                       patterns=[z3.MultiPattern(heap.sel("_dependencies", t), heap.sel("_tasks", s))]),
-            z3.ForAll([t, b], z3.Implies(z3.And(g, gb), dl != heap.sel("items", b)),
+            smt.forall([t, b], z3.Implies(z3.And(g, gb), dl != heap.sel("items", b)),
                       patterns=[z3.MultiPattern(heap.sel("_dependencies", t), heap.sel("items", b))]),
-            z3.ForAll([t, t2], z3.Implies(z3.And(g, g2, t != t2), dl != heap.sel("_dependencies", t2)),
+            smt.forall([t, t2], z3.Implies(z3.And(g, g2, t != t2), dl != heap.sel("_dependencies", t2)),
                       patterns=[z3.MultiPattern(heap.sel("_dependencies", t), heap.sel("_dependencies", t2))]),
         ]
     reg.inv_hooks.append(inv_task)
@@ -84,11 +84,11 @@ def register(reg, repo):
                         new.sel("$litem", dl) == old.sel("$litem", dl),
                         new.sel("running", t) == old.sel("running", t))
         return [
-            z3.ForAll([t], z3.Implies(g, new.sel("running", t) == old.sel("running", t)),
+            smt.forall([t], z3.Implies(g, new.sel("running", t) == old.sel("running", t)),
                       patterns=[new.sel("running", t)]),
-            z3.ForAll([t], z3.Implies(z3.And(g, old.sel("running", t) == smt.TRUE), frozen),
+            smt.forall([t], z3.Implies(z3.And(g, old.sel("running", t) == smt.TRUE), frozen),
                       patterns=[new.sel("iteration_index", t), new.sel("_generator", t), new.sel("_dependencies", t)]),
-            z3.ForAll([t], z3.Implies(z3.And(g, old.sel("_generator", t) == NONE),
+            smt.forall([t], z3.Implies(z3.And(g, old.sel("_generator", t) == NONE),
                                       z3.And(new.sel("_generator", t) == NONE,
                                              new.sel("iteration_index", t) == old.sel("iteration_index", t))),
                       patterns=[new.sel("_generator", t)]),
@@ -185,7 +185,7 @@ def register(reg, repo):
               labels={("post", 0): "blocked-iff-some-dependency-uncomputed"}))
 
     reg.add(C(T + "_compute", modifies="*",
-              requires=["not computed(self)"],
+              requires=["not computed(self)", "self.running == False"],
               calls={"asynq.scheduler.get_scheduler": "scheduler.get_scheduler"},
               post=["computed(self)"], xpost=["True"]))
 
@@ -197,7 +197,8 @@ def register(reg, repo):
               labels={"ts_skip": ("notif",)}))
     reg.add(C(T + "collect_perf_stats", modifies=["perf_stats"], post=[], xpost=None, trusted=True,
               note="profiling only (C20 erase)"))
-    reg.add(C(T + "dump_perf_stats", modifies=["$dget", "$dhas", "stats_log"], post=[], xpost=None, trusted=True))
+    reg.add(C(T + "dump_perf_stats", modifies=["stats_log"], post=[], xpost=None, trusted=True,
+              note="profiling sink: writes the task's own perf_stats dict and the profiler buffer (diagnostic footprint, C20)"))
 
     reg.add(C(T + "_queue_exit", modifies="*",
               calls={"self._generator.close": "env.gen.close"},
